@@ -75,7 +75,8 @@ def _observe_one(args):
     it, cfg = _ITEMS[i], _CFGS[j]
     t0 = time.time()
     try:
-        obs = H.observe(it["prog"], cfg, it["calls"], it.get("src"))
+        mf = it["model"][1] if it.get("model") is not None else None
+        obs = H.observe(it["prog"], cfg, it["calls"], it.get("src"), model_final=mf)
         return (i, j, "ok", obs, time.time() - t0)
     except Exception as e:
         return (i, j, "exc", (type(e).__name__, str(e)[:400]), time.time() - t0)
